@@ -10,7 +10,7 @@ nondeterministic choices (which peer downloads which piece / metadata) are appli
 -/
 namespace Rain.Loop
 
-inductive GateKind | open | write | read | failWrite | failOpen
+inductive GateKind | open | write | read | failWrite | failOpen | failOpenAt (j : Nat) | writeDone
   deriving Repr, DecidableEq
 
 /-- One event delivered to the torrent's event loop by the harness. -/
@@ -76,7 +76,9 @@ def handle (s : St) (parked : Parked) (known : Nat → Bool) : Op → M × Strin
       | .write => { s with gateWrite := on }
       | .read => { s with gateRead := on }
       | .failWrite => { s with failWrite := on }
-      | .failOpen => { s with failOpen := on }
+      | .failOpen => { s with failOpen := on, failAt := 0 }
+      | .failOpenAt j => { s with failOpen := on, failAt := j }
+      | .writeDone => { s with gateWriteDone := on }
     ((s, []), "", parked)
   | .mutate file how =>
     if !s.openFiles.isEmpty || s.errC then ((s, []), "skipped:not-stopped", parked)
